@@ -153,3 +153,18 @@ def normalize(t):
             return ('rev', x[1])
         return None
     return rewrite(fold_arith(t), f)
+
+
+def plus_to_cat(t):
+    """treat untyped '+' of non-integers as concatenation (bytes/str building code)"""
+    def f(x):
+        if isinstance(x, tuple) and x and x[0] == 'binop' and x[1] == '+' and not isinstance(x[2], (int, float)) and not isinstance(x[3], (int, float)):
+            parts = []
+            for y in (x[2], x[3]):
+                if isinstance(y, tuple) and y and y[0] == 'cat':
+                    parts += list(y[1])
+                else:
+                    parts.append(y)
+            return ('cat', tuple(parts))
+        return None
+    return rewrite(t, f)
